@@ -13,6 +13,7 @@ import (
 	"crypto/sha256"
 	"crypto/x509"
 	"errors"
+	"fmt"
 	"hash"
 
 	"verif/mc/ref/gmrec"
@@ -35,6 +36,7 @@ type Profile struct {
 	Block   func(key []byte) cipher.Block
 	MAC     func() hash.Hash
 	MacLen  int
+	KeyLen  func(suite uint16) int // nil: 16 bytes for every suite
 	HasSKE  bool
 	// ImplicitIV: CBC records carry no explicit IV; each record is chained to the previous one (TLS 1.0)
 	ImplicitIV bool
@@ -470,3 +472,98 @@ func (p *Peer) UseECDHE() {
 
 // GenerateECDH makes sure the peer has an ephemeral P-256 key (ECDHE profile).
 func (p *Peer) GenerateECDH() { ecdhGenerate(p) }
+
+// ECDHE with CBC suites, TLS 1.0 - 1.2 ---------------------------------------------------------------
+
+const (
+	SuiteECDHEECDSACBC  = 0xc009 // TLS_ECDHE_ECDSA_WITH_AES_128_CBC_SHA
+	SuiteECDHERSACBC256 = 0xc014 // TLS_ECDHE_RSA_WITH_AES_256_CBC_SHA
+)
+
+// legacyECDHEDigest is what the server signs below TLS 1.2: MD5||SHA-1 for RSA, SHA-1 for ECDSA.
+func legacyECDHEDigest(rsaKey bool, cr, sr, params []byte) []byte {
+	in := append(append(append([]byte{}, cr...), sr...), params...)
+	if rsaKey {
+		return md5sha1(in)
+	}
+	d := sha1.Sum(in)
+	return d[:]
+}
+
+// ecdheCBC builds the profile for ephemeral ECDH on P-256 with the CBC/SHA-1 suites at the given
+// version: below TLS 1.2 the ServerKeyExchange signature has no algorithm bytes and uses the fixed
+// digests of RFC 4492; everything else about the version (PRF, Finished, implicit IV, CertificateVerify)
+// comes from the RSA profile of that version.
+func ecdheCBC(version uint16) *Profile {
+	base := TLS12RSA
+	switch version {
+	case 0x0301:
+		base = TLS10RSA
+	case 0x0302:
+		base = TLS11RSA
+	}
+	pr := *base
+	pr.Name = fmt.Sprintf("TLS%04x-ECDHE-CBC", version)
+	pr.Suites = []uint16{SuiteECDHEECDSACBC, SuiteECDHERSACBC256}
+	pr.GCM = func(uint16) bool { return false }
+	pr.KeyLen = func(s uint16) int {
+		if s == SuiteECDHERSACBC256 {
+			return 32
+		}
+		return 16
+	}
+	pr.HasSKE = true
+	pr.BuildCKX, pr.OpenCKX = TLS12ECDHE.BuildCKX, TLS12ECDHE.OpenCKX
+	if version >= TLS12 {
+		pr.BuildSKE, pr.CheckSKE = TLS12ECDHE.BuildSKE, TLS12ECDHE.CheckSKE
+		return &pr
+	}
+	pr.BuildSKE = func(p *Peer) []byte {
+		ecdhGenerate(p)
+		params := ECDHEParams(p.ECDHOwn)
+		var sig []byte
+		switch k := p.ID.TLSKey.(type) {
+		case *ecdsa.PrivateKey:
+			sig, _ = ecdsa.SignASN1(p.Rand, k, legacyECDHEDigest(false, p.CR, p.SR, params))
+		case *rsa.PrivateKey:
+			sig, _ = rsa.SignPKCS1v15(nil, k, crypto.MD5SHA1, legacyECDHEDigest(true, p.CR, p.SR, params))
+		}
+		return append(append([]byte{}, params...), SKEBody(sig)...)
+	}
+	pr.CheckSKE = func(p *Peer, body []byte) {
+		if len(body) < 4 || body[0] != 3 || body[1] != 0 || body[2] != 23 {
+			return
+		}
+		n := int(body[3])
+		if len(body) < 4+n+2 {
+			return
+		}
+		p.ECDHPeer = append([]byte{}, body[4:4+n]...)
+		params, rest := body[:4+n], body[4+n:]
+		sig := rest[2:]
+		ok := int(rest[0])<<8|int(rest[1]) == len(sig)
+		if len(p.PeerCerts) == 0 {
+			return
+		}
+		c, err := x509.ParseCertificate(p.PeerCerts[0])
+		if err != nil {
+			return
+		}
+		switch k := c.PublicKey.(type) {
+		case *ecdsa.PublicKey:
+			ok = ok && ecdsa.VerifyASN1(k, legacyECDHEDigest(false, p.CR, p.SR, params), sig)
+		case *rsa.PublicKey:
+			ok = ok && rsa.VerifyPKCS1v15(k, crypto.MD5SHA1, legacyECDHEDigest(true, p.CR, p.SR, params), sig) == nil
+		}
+		p.Checks["ske-signature"] = ok
+	}
+	return &pr
+}
+
+var ecdheCBCProfiles = map[uint16]*Profile{0x0301: ecdheCBC(0x0301), 0x0302: ecdheCBC(0x0302), 0x0303: ecdheCBC(0x0303)}
+
+// UseECDHECBC switches a peer to ephemeral ECDH with the CBC/SHA-1 suites at TLS 1.0, 1.1 or 1.2.
+func (p *Peer) UseECDHECBC(version uint16) {
+	p.UseECDHE() // hello extensions
+	p.Prof, p.Vers, p.Suites = ecdheCBCProfiles[version], version, []uint16{SuiteECDHEECDSACBC, SuiteECDHERSACBC256}
+}
